@@ -246,7 +246,8 @@ def gen_base(rng, family=None, dim=None):
     fams += ['dh']
   fam = family or rng.choice(fams)
   if fam == 'bbob':
-    return {'k': 'base', 'fam': 'bbob', 'fn': rng.choice(BBOB_FUNCTIONS), 'dim': dim or rng.randrange(2, 5),
+    return {'k': 'base', 'fam': 'bbob', 'fn': rng.choice(BBOB_FUNCTIONS), 'dim': dim or rng.choice([2, 3, 4, 2, 3, 4, 2, 3, 11, 12]),      # from x10 on, name order is not declaration order
+           
             'seed': rng.randrange(0, 3)}
   if fam == 'branin':
     return {'k': 'base', 'fam': 'branin'}
@@ -1339,7 +1340,7 @@ def numpy_stage(c, n):
   m = M()
   vz = m['vz']
   def one(i):
-    dim = c.rng.randrange(1, 5)
+    dim = c.rng.choice([1, 2, 3, 4, 2, 3, 11, 13])
     problem = m['bbob'].DefaultBBOBProblemStatement(dim, metric_name=c.rng.choice(['bbob_eval', 'obj', 'y']))
     thr = c.rng.uniform(-3, 3)
     bad = c.rng.choice([float('inf'), float('-inf'), float('nan')])
